@@ -34,11 +34,18 @@ def sources(tier, seed, ctx):
     hs, st = apigen.bfs_transitions({'Depth': depth}, tag='C02-bfs')
     ctx['gen_states'] = st['distinct']
     ctx['gen_transitions'] = st['generated']
-    note = [f'CircuitAPI BFS (Pool5,T6,AMAX2,MaxGates3,MaxOuts2,Depth{depth},Lib3,2 blocks): {st["distinct"]} distinct states, {st["generated"]} transitions, WF1-6 invariants hold, {st["wall_s"]:.0f}s; every transition replayed']
+    note = [f'CircuitAPI BFS (Pool5,T6,AMAX2,MaxGates3,MaxOuts2,Depth{depth},Lib3,2 blocks): {st["distinct"]} distinct states, {st["generated"]} transitions, WF1-6 invariants hold, {st["wall_s"]:.0f}s; ']
     if tier == 'thorough' and len(hs) > 150000:
         rng.shuffle(hs)
         hs = hs[:150000]
         note.append('150000 of the transitions sampled for replay')
+    if tier == 'quick' and len(hs) > 7000:
+        # every depth-2 transition, and a seeded sample of the depth-3 ones
+        short = [h for h in hs if len(h) <= 2]
+        long_ = [h for h in hs if len(h) > 2]
+        rng.shuffle(long_)
+        hs = short + long_[: 7000 - len(short)]
+        note.append(f'quick tier: all {len(short)} transitions of depth <= 2 and {len(hs) - len(short)} sampled transitions of depth 3 replayed')
     srcs += [{'k': 'hist', 'acts': h, 'from': 'bfs'} for h in hs]
     num = 12 if tier == 'quick' else 150
     sims, st2 = apigen.simulate({'Types': 'T18', 'Pool': 'Pool8', 'MaxGates': 6, 'AMAX': 3}, num, 12, seed + 1, tag='C02-sim')
